@@ -2,6 +2,7 @@ package propeller
 
 import (
 	"errors"
+	"fmt"
 	"time"
 
 	"github.com/NethermindEth/juno/consensus/propeller/merkle"
@@ -71,6 +72,12 @@ func UnitFromProto(protoUnit *pb.PropellerUnit) (Unit, error) {
 	// validate that all shard length is the same
 	// todo(rdr): What other validations should I do?
 	// todo(rdr): Should I do these validations here?
+	if len(shards) == 0 {
+		return Unit{}, errors.New("unit carries no shards")
+	}
+	if rootLen := len(protoUnit.MerkleRoot.GetElements()); rootLen != len(MessageRoot{}) {
+		return Unit{}, fmt.Errorf("unit has a merkle root of %d bytes", rootLen)
+	}
 	shardLen := len(shards[0])
 	for i := range shards[1:] {
 		if len(shards[i]) != shardLen {
